@@ -74,7 +74,7 @@ func (c *schedCtl) start(run *Runner, id, line string, hold bool, point string) 
 }
 
 var schedPoints = map[string][]string{
-	"pub":  {"publish.rollover.swapped", "publish.files-written", "publish.files-written"},
+	"pub":  {"publish.rollover.swapped", "publish.files-written", "publish.record-written", "publish.record-written"},
 	"del":  {"delete.target-chosen", "delete.rewritten", "delete.before-swap"},
 	"cons": {"reader.consume.index-read"},
 	"gc":   {"reader.gc.index-closed"},
